@@ -2,6 +2,7 @@ import MdkVerif.Model.Store
 import MdkVerif.Proofs.Store
 import MdkVerif.Proofs.Sort
 import MdkVerif.Proofs.Refine
+import MdkVerif.Props.C10Lru
 /-
   C10 — Memory and SQLite backends are observably the same store, and both agree with the plain
   reading of the storage contract.  The statements below are about the store model on EITHER backend
@@ -291,5 +292,86 @@ example : WLrun (Store.empty .mem) exWL = true := by decide
 
 /-- the two witnesses of §4 are outside `WL` (so they do not contradict the theorem) -/
 example : WLrun (Store.empty .mem) wMissing = false ∧ WLrun (Store.empty .mem) wCollision = false := by decide
+
+
+/-! ### 6. the memory backend WITH its LRU caches (proved in Props/C10Lru.lean over Model/Lru.lean, Model/MemLru.lean,
+    Proofs/Lru.lean, Proofs/MemLru.lean; restated here so that `./check C10` audits them).  `Model/Store.lean`'s `.mem`
+    flavour keeps unbounded maps; the code keeps nine `lru::LruCache`s of `cache_size` entries and at most
+    `max_messages_per_group` messages per group. -/
+
+open MdkVerif.Lru in
+/-- (a) a cache over at most `cap` distinct keys IS the unbounded association list: every read agrees, nothing is evicted -/
+theorem lru_refines_map {κ α : Type} [DecidableEq κ] (c : Lru κ α) (T : List κ) (ops : List (LOp κ α))
+    (hwf : c.WF) (hT : T.length ≤ c.cap) (hc : ∀ k ∈ keys c.items, k ∈ T) (ho : ∀ o ∈ ops, o.key ∈ T) :
+    c.observe ops = mapObserve c.items ops :=
+  C10Lru.lru_refines_map c T ops hwf hT hc ho
+
+open MdkVerif.Lru in
+theorem lru_refines_map_fresh {κ α : Type} [DecidableEq κ] (cap : Nat) (hcap : 0 < cap) (ops : List (LOp κ α))
+    (h : (ops.map LOp.key).eraseDups.length ≤ cap) :
+    (Lru.empty cap : Lru κ α).observe ops = mapObserve [] ops :=
+  C10Lru.lru_refines_map_fresh cap hcap ops h
+
+open MdkVerif.Lru in
+/-- (b) at capacity a `put` of a new key evicts exactly the least recently used entry and nothing else -/
+theorem lru_evicts_lru {κ α : Type} [DecidableEq κ] (c : Lru κ α) (h : c.WF) (k : κ) (v : α)
+    (hnew : c.contains k = false) (hfull : c.len = c.cap) :
+    ∃ e, c.items.getLast? = some e ∧ (c.put k v).2 = some e ∧ e.1 ≠ k ∧
+      (c.put k v).1.items = (k, v) :: c.items.dropLast ∧
+      (c.put k v).1.peek k = some v ∧ (c.put k v).1.peek e.1 = none ∧
+      ∀ k', k' ≠ k → k' ≠ e.1 → (c.put k v).1.peek k' = c.peek k' :=
+  C10Lru.lru_evicts_lru c h k v hnew hfull
+
+open MdkVerif.Lru in
+/-- (b) the size never exceeds the capacity, for all operation sequences -/
+theorem lru_size_le_cap {κ α : Type} [DecidableEq κ] (cap : Nat) (hcap : 0 < cap) (ops : List (LOp κ α)) :
+    ((Lru.empty cap : Lru κ α).run ops).len ≤ cap ∧ (keys ((Lru.empty cap : Lru κ α).run ops).items).Nodup :=
+  C10Lru.lru_size_le_cap cap hcap ops
+
+open MdkVerif.MemLru in
+/-- (c) within the capacities the LRU-backed memory backend is the unbounded `.mem` model, whatever the map orders -/
+theorem mem_within_capacity_eq_unbounded (cap msgCap : Nat) (ops : List (Op × List Nat))
+    (hw : WithinCapRun cap msgCap (Store.empty .mem) (ops.map (·.1)) = true) :
+    MemLru.observe (MemStore.empty cap msgCap) ops = (Store.observe (Store.empty .mem, []) (ops.map (·.1))).2 ∧
+    (MemLru.run (MemStore.empty cap msgCap) ops).u = (Store.observe (Store.empty .mem, []) (ops.map (·.1))).1 :=
+  C10Lru.mem_within_capacity_eq_unbounded cap msgCap ops hw
+
+open MdkVerif.MemLru in
+/-- (c) … hence `backends_equal_partial` holds for the real memory backend: same observations as SQLite -/
+theorem backends_equal_lru_partial (cap msgCap : Nat) (ops : List (Op × List Nat))
+    (hc : WithinCapRun cap msgCap (Store.empty .mem) (ops.map (·.1)) = true)
+    (hw : WLrun (Store.empty .mem) (ops.map (·.1)) = true) :
+    MemLru.observe (MemStore.empty cap msgCap) ops = (Store.observe (Store.empty .sql, []) (ops.map (·.1))).2 :=
+  C10Lru.backends_equal_lru_partial cap msgCap ops hc hw
+
+theorem mem_beyond_capacity_differs :
+    MemLru.observe (MemLru.MemStore.empty 1 10) [(.saveGroup (C10Lru.grp 1 11), []), (.saveGroup (C10Lru.grp 2 12), []), (.findGroup 1, [])] ≠
+      (Store.observe (Store.empty .mem, []) [.saveGroup (C10Lru.grp 1 11), .saveGroup (C10Lru.grp 2 12), .findGroup 1]).2 ∧
+    MemLru.WithinCapRun 1 10 (Store.empty .mem) [.saveGroup (C10Lru.grp 1 11), .saveGroup (C10Lru.grp 2 12), .findGroup 1] = false :=
+  C10Lru.mem_beyond_capacity_differs
+
+open MdkVerif.MemLru in
+/-- (d) all histories, beyond the capacities too, no restore collision: the two group lookups never disagree -/
+theorem index_consistent (cap msgCap : Nat) (hcap : 0 < cap) (ops : List (Op × List Nat))
+    (hnc : NoCollisionRun (MemStore.empty cap msgCap) ops = true) :
+    C10Lru.IndexOK (MemLru.run (MemStore.empty cap msgCap) ops) :=
+  C10Lru.index_consistent cap msgCap hcap ops hnc
+
+open MdkVerif.MemLru in
+/-- `messages_cache` is read by no trait method: it cannot influence any observation, in any history -/
+theorem messages_cache_unobservable (ops : List (Op × List Nat)) (a b : MemStore) (h : vis a = vis b) :
+    MemLru.observe a ops = MemLru.observe b ops ∧ vis (MemLru.run a ops) = vis (MemLru.run b ops) :=
+  C10Lru.messages_cache_unobservable ops a b h
+
+open MdkVerif.MemLru in
+/-- at any fill level a rollback never changes a message, a dedup record, a welcome or a processed-welcome record -/
+theorem rollback_keeps_messages_and_records (s : MemStore) (hb : s.u.backend = .mem) (gid name : Nat) (ch : List Nat)
+    (s' : MemStore) (h : MemLru.snapRollback s gid name ch = some s') :
+    s'.u.msgs = s.u.msgs ∧ s'.u.pms = s.u.pms ∧ s'.u.welcomes = s.u.welcomes ∧ s'.u.pws = s.u.pws ∧
+    s'.qMsgGroups = s.qMsgGroups ∧ s'.qPms = s.qPms ∧ s'.qWelcomes = s.qWelcomes ∧ s'.qPws = s.qPws :=
+  C10Lru.rollback_keeps_messages_and_records s hb gid name ch s' h
+
+/-- (d) … and with a restore collision beyond the capacity they do (corpus/C10lru/index_ghost_after_collision.trace) -/
+theorem index_full_false : ¬ C10Lru.index_full := C10Lru.index_full_false
 
 end MdkVerif.Props.C10
